@@ -141,7 +141,9 @@ func c10Mixed(ctx *Ctx, i int, drv int) {
 	wk := c10MixedRun(drv, 1)
 	mid := c10MixedRun(drv, 2)
 	var mon []string
-	same := func(a, b mixedOutcome) bool { return a.Left == b.Left && a.Settled == b.Settled && a.Client == b.Client }
+	same := func(a, b mixedOutcome) bool {
+		return a.Left == b.Left && a.Settled == b.Settled && a.Client == b.Client
+	}
 	if mid.Note == "" && !same(mid, kw) && !same(mid, wk) {
 		mon = append(mon, fmt.Sprintf("c10-keepalive-withdraw-not-serialisable: a client's keep-alive credits two hosts paid into one wallet; the wallet withdraws between the two credits: %s left on the wallet and %s settled; keep-alive then withdrawal leaves %s and settles %s, withdrawal then keep-alive leaves %s and settles %s: the result of neither one-at-a-time order (%s driver)",
 			mid.Left, mid.Settled, kw.Left, kw.Settled, wk.Left, wk.Settled, driverNames[drv]))
@@ -228,10 +230,62 @@ func c10WdCredit(ctx *Ctx, i int, drv int) {
 	kw := c10WdCreditRun(drv, 1)
 	mid := c10WdCreditRun(drv, 2)
 	var mon []string
-	same := func(a, b mixedOutcome) bool { return a.Left == b.Left && a.Settled == b.Settled && a.Client == b.Client }
+	same := func(a, b mixedOutcome) bool {
+		return a.Left == b.Left && a.Settled == b.Settled && a.Client == b.Client
+	}
 	if !same(mid, kw) && !same(mid, wk) {
 		mon = append(mon, fmt.Sprintf("c10-withdraw-credit-not-serialisable: a keep-alive credits a wallet while the wallet's withdrawal waits for its settlement: %s left on the wallet and %s settled; withdrawal then keep-alive leaves %s and settles %s, keep-alive then withdrawal leaves %s and settles %s: the result of neither one-at-a-time order (%s driver)",
 			mid.Left, mid.Settled, wk.Left, wk.Settled, kw.Left, kw.Settled, driverNames[drv]))
 	}
 	ctx.Emit(Case{I: i, Kind: "withdraw-credit-" + driverNames[drv], Desc: map[string]interface{}{"withdraw_then_keepalive": wk, "keepalive_then_withdraw": kw, "keepalive_during_settlement": mid}, Monitor: mon})
+}
+
+// firstCreditRace: a node's very first credit (no balance record yet) is applied while the node
+// itself checks in (its record is rewritten at the same moment). The persistent driver retries a
+// transaction that conflicts: a retry must apply the credit once, not once per attempt.
+func firstCreditRace(ctx *Ctx, i int, drv int, prefix string) {
+	st := newStore(drv)
+	defer st.Destroy()
+	var mon []string
+	hosts := 250
+	wrong := 0
+	example := ""
+	for h := 0; h < hosts; h++ {
+		id := store.NodeID(fmt.Sprintf("%0128x", 0xfc0000+h))
+		if err := st.SetNode(store.Node{ID: id, IsHost: true, Kind: "geth", LastSeen: time.Now()}); err != nil {
+			fatal("%v", err)
+		}
+		var wg sync.WaitGroup
+		start := make(chan struct{})
+		for g := 0; g < 3; g++ {
+			wg.Add(1)
+			go func(g int) {
+				defer wg.Done()
+				<-start
+				for k := 0; k < 6; k++ {
+					st.UpdateNodePeers(id, nil, uint64(k))
+				}
+			}(g)
+		}
+		wg.Add(1)
+		var addErr error
+		go func() {
+			defer wg.Done()
+			<-start
+			addErr = st.AddNodeBalance(id, big.NewInt(1000))
+		}()
+		close(start)
+		wg.Wait()
+		b, err := st.GetNodeBalance(id)
+		if addErr == nil && err == nil && b.Credit.Cmp(big.NewInt(1000)) != 0 {
+			wrong++
+			if example == "" {
+				example = b.Credit.String()
+			}
+		}
+	}
+	if wrong > 0 {
+		mon = append(mon, fmt.Sprintf("%s-first-credit-applied-twice: %d of %d nodes that were credited 1000 once, while checking in, hold another amount (e.g. %s): the credit was applied more than once (%s driver)", prefix, wrong, hosts, example, driverNames[drv]))
+	}
+	ctx.Emit(Case{I: i, Kind: "first-credit-race-" + driverNames[drv], Desc: map[string]interface{}{"nodes": hosts, "wrong": wrong}, Monitor: mon})
 }
